@@ -2,6 +2,7 @@ package h
 
 import (
 	"errors"
+	"fmt"
 	"io"
 	"net"
 	"sync"
@@ -64,6 +65,12 @@ type ScriptConn struct {
 	exhausted   bool
 	// TakenAtClose is the number of octets consumed when Close was called.
 	TakenAtClose int
+	// RequireDeadlines: the server is configured with Read/WriteTimeout; every Read and Write must then
+	// happen under a deadline that is set and not already past (time is the bubble's virtual clock).
+	RequireDeadlines bool
+	Pause            time.Duration // virtual time the peer lets pass before each segment
+	readDL, writeDL  time.Time
+	DeadlineAnomaly  string
 }
 
 func NewScriptConn(segs [][]byte, term string) *ScriptConn {
@@ -72,6 +79,9 @@ func NewScriptConn(segs [][]byte, term string) *ScriptConn {
 
 func (c *ScriptConn) Read(b []byte) (int, error) {
 	c.mu.Lock()
+	if c.RequireDeadlines && !c.Closed && c.DeadlineAnomaly == "" && (c.readDL.IsZero() || c.readDL.Before(time.Now())) {
+		c.DeadlineAnomaly = fmt.Sprintf("Read after %d input octets without a live read deadline although ReadTimeout is configured (deadline: %v)", c.Consumed, c.readDL)
+	}
 	if c.Closed {
 		c.ReadsAfterClose++
 		c.mu.Unlock()
@@ -91,6 +101,15 @@ func (c *ScriptConn) Read(b []byte) (int, error) {
 		}
 		return 0, c.term
 	}
+	if c.Pause > 0 && c.off == 0 {
+		// the peer takes its time before it sends the next segment (virtual clock)
+		c.mu.Unlock()
+		time.Sleep(c.Pause)
+		c.mu.Lock()
+		if c.RequireDeadlines && c.DeadlineAnomaly == "" && (c.readDL.IsZero() || c.readDL.Before(time.Now())) {
+			c.DeadlineAnomaly = fmt.Sprintf("after a pause of %s before segment %d the read deadline (%v) had not been renewed: with ReadTimeout configured every wait for a command must be armed afresh", c.Pause, c.idx, c.readDL)
+		}
+	}
 	n := copy(b, c.segs[c.idx][c.off:])
 	c.off += n
 	c.Consumed += n
@@ -101,6 +120,9 @@ func (c *ScriptConn) Read(b []byte) (int, error) {
 func (c *ScriptConn) Write(b []byte) (int, error) {
 	c.mu.Lock()
 	defer c.mu.Unlock()
+	if c.RequireDeadlines && !c.Closed && c.DeadlineAnomaly == "" && (c.writeDL.IsZero() || c.writeDL.Before(time.Now())) {
+		c.DeadlineAnomaly = fmt.Sprintf("Write of %q without a live write deadline although WriteTimeout is configured", b)
+	}
 	if c.Closed {
 		return 0, net.ErrClosed
 	}
@@ -130,11 +152,26 @@ func (c *ScriptConn) Wire() []byte {
 	return out
 }
 
-func (c *ScriptConn) LocalAddr() net.Addr                { return addr("server") }
-func (c *ScriptConn) RemoteAddr() net.Addr               { return addr("client") }
-func (c *ScriptConn) SetDeadline(t time.Time) error      { return nil }
-func (c *ScriptConn) SetReadDeadline(t time.Time) error  { return nil }
-func (c *ScriptConn) SetWriteDeadline(t time.Time) error { return nil }
+func (c *ScriptConn) LocalAddr() net.Addr  { return addr("server") }
+func (c *ScriptConn) RemoteAddr() net.Addr { return addr("client") }
+func (c *ScriptConn) SetDeadline(t time.Time) error {
+	c.mu.Lock()
+	c.readDL, c.writeDL = t, t
+	c.mu.Unlock()
+	return nil
+}
+func (c *ScriptConn) SetReadDeadline(t time.Time) error {
+	c.mu.Lock()
+	c.readDL = t
+	c.mu.Unlock()
+	return nil
+}
+func (c *ScriptConn) SetWriteDeadline(t time.Time) error {
+	c.mu.Lock()
+	c.writeDL = t
+	c.mu.Unlock()
+	return nil
+}
 
 // Segmentations ---------------------------------------------------------
 
